@@ -163,6 +163,8 @@ def cases(tier, seed):
     k = 600 if tier == "quick" else 6000
     for i in range(k):
         yield {"id": n + m + i, "fam": "mutate", "seed": base + i}
+    for i in range(k):
+        yield {"id": n + m + k + i, "fam": "equal", "seed": base + i, "rt": i % 3 != 0}
 
 
 def setup_worker():
@@ -405,7 +407,82 @@ def run_mutate(case):
     return dict(base, verdict="held", observed=obs)
 
 
+def run_equal(case):
+    """2-4 flows called with the SAME parameter name and the SAME scalar value (their local contexts are equal, key for key),
+    plus one awaited flow returning its parameter; each waits for its own events and then either reassigns its parameter or
+    only reports it. In `rt` cases the state is written to JSON and read back between events (what LLMRails.generate(state=...)
+    does on every call). Every instance must report its OWN value, the caller its own local and the callee's return value."""
+    from . import v2h
+
+    L = v2h.load()
+    rng = random.Random(case["seed"])
+    n = rng.randint(2, 4)
+    v0 = rng.choice([10, 0, 2.5, "s", "two words", True, None, 7])
+    pname = rng.choice(["points", "x", "val"])
+    plans = []
+    src = 'flow main\n  $x = "caller-local"\n'
+    flows = ""
+    val = {}
+    for i in range(n):
+        steps_ = [rng.choice(["set", "set", "report"]) for _ in range(rng.randint(1, 2))]
+        plans.append(steps_)
+        src += "  start f%d %s\n" % (i, lit(v0))
+        body = "flow f%d $%s\n" % (i, pname)
+        for j, op in enumerate(steps_):
+            body += "  match R%d()\n" % i
+            if op == "set":
+                body += "  $%s = %s\n" % (pname, lit("new-%d-%d" % (i, j)))
+            body += "  send EchoT(tag=%d, step=%d, p=$%s)\n" % (i, j, pname)
+        body += "  match NeverT()\n\n"
+        flows += body
+        val[i] = v0
+    src += "  $r = await fz %s\n  send Ret(x=$x, v=$r)\n  match Never()\n\n" % lit(v0)
+    flows += "flow fz $%s\n  match Rz()\n  return $%s\n" % (pname, pname)
+    src += flows
+    todo = [i for i in range(n) for _ in plans[i]] + ["z"]
+    rng.shuffle(todo)
+    L["random"].reset(seed=case["seed"])
+    base = {"key": src + repr(todo) + repr(bool(case.get("rt"))), "nontrivial": True, "sample": {"program": src, "release_order": todo, "json_roundtrips": bool(case.get("rt"))}, "form": "equal"}
+    obs = {"form_equal": 1, "locals_checked": 0, "params_checked": 0, "returns_checked": 0, "state_roundtrips": 0}
+    try:
+        st = v2h.mk(src)
+    except v2h.LoaderReject as e:
+        return dict(base, verdict="inconclusive", reason="loader-reject", detail=str(e)[:300])
+    problems = []
+    done = {i: 0 for i in range(n)}
+    try:
+        for t in todo:
+            if case.get("rt") and rng.random() < 0.6:
+                from nemoguardrails.colang.v2_x.runtime import serialization as ser
+
+                st = ser.json_to_state(ser.state_to_json(st))
+                obs["state_roundtrips"] += 1
+            out = v2h.run(st, {"type": "R%s" % t})
+            if t == "z":
+                rs = [e for e in out if e["type"] == "Ret"]
+                obs["returns_checked"] += 1
+                obs["locals_checked"] += 1
+                if len(rs) != 1 or rs[0].get("x") != "caller-local" or not same(rs[0].get("v"), v0):
+                    problems.append("return-or-caller-local-mismatch got=%r expected v=%r" % ([strip(r) for r in rs], v0))
+                continue
+            j = done[t]
+            done[t] += 1
+            if plans[t][j] == "set":
+                val[t] = "new-%d-%d" % (t, j)
+            es = [e for e in out if e["type"] == "EchoT"]
+            obs["params_checked"] += 1
+            if len(es) != 1 or es[0].get("tag") != t or es[0].get("step") != j or not same(es[0].get("p"), val[t]):
+                problems.append("equal-context-instances-mixed tag=%s step=%d got=%r expected p=%r" % (t, j, [strip(e) for e in es], val[t]))
+    except Exception as e:
+        problems.append("exception: %s: %s" % (type(e).__name__, str(e)[:200]))
+    if problems:
+        return dict(base, verdict="violated", observed=obs, witness={"program": src, "order": todo, "problems": problems, "json_roundtrips": bool(case.get("rt"))}, problems=[p.split(" ")[0] for p in problems])
+    return dict(base, verdict="held", observed=obs)
+
+
 def run_case(case):
+    if case["fam"] == "equal":
+        return run_equal(case)
     if case["fam"] == "mutate":
         return run_mutate(case)
     return run_bind(case) if case["fam"] == "bind" else run_siblings(case)
